@@ -44,6 +44,16 @@ class NPShim:
     class ndarray:      # isinstance(v, np.ndarray) is False for plain values
         pass
 
+    class _IntegerMeta(type):
+        def __instancecheck__(cls, x):
+            return isinstance(x, int) and not isinstance(x, bool)
+
+        def __subclasscheck__(cls, sub):      # CrossHair's isinstance asks about the symbolic value's Python type
+            return issubclass(sub, int) and not issubclass(sub, bool)
+
+    class integer(metaclass=_IntegerMeta):
+        """isinstance(v, np.integer): the result of an integer cast (modelled as int); never a Python bool"""
+
     @staticmethod
     def searchsorted(a, v, side="left"):
         return bisect.bisect_left(a, v) if side == "left" else bisect.bisect_right(a, v)
